@@ -103,9 +103,12 @@ func (r *Value) Pull(ctx context.Context, opts ...ReadOption) <-chan *ValueChang
 	go func() {
 		defer close(typedEvents)
 
+		// last is the value most recently sent to the receiver, as the receiver sees it (after filtering)
+		last := currentValue
 		if currentValue != nil {
 			change := &ValueChange{Value: currentValue, ChangeTime: changeTime, SeedValue: true, LastSeedValue: true}
 			change = change.filter(filter)
+			last = change.Value
 			select {
 			case <-ctx.Done():
 				return // give up sending
@@ -113,7 +116,6 @@ func (r *Value) Pull(ctx context.Context, opts ...ReadOption) <-chan *ValueChang
 			}
 		}
 
-		last := currentValue
 		for event := range on {
 			change := event.(*ValueChange).filter(filter)
 			if r.equivalence != nil && r.equivalence.Compare(last, change.Value) {
